@@ -526,6 +526,7 @@ static void setup_simple(Runner<T, PT> &R, const std::string &adapter, const std
                 trk::Off o;
                 env->cb_calls++;
                 env->log("cb " + observe_result(r, env->read));
+                if (env->cb_throws && env->cb_calls == 1) throw test_exc(88);
             };
             ext->emplace(factory);
             R.register_tracked([&] {
@@ -548,6 +549,7 @@ static void setup_simple(Runner<T, PT> &R, const std::string &adapter, const std
                 trk::Off o;
                 env->cb_calls++;
                 env->log("cb " + observe_result(r, env->read));
+                if (env->cb_throws && env->cb_calls == 1) throw test_exc(88);
             };
             {
                 trk::Off o;
